@@ -5,6 +5,8 @@ package c17
 import (
 	"bytes"
 	"crypto"
+	"crypto/ecdsa"
+	"crypto/elliptic"
 	"crypto/rand"
 	"crypto/rsa"
 	"crypto/sha1"
@@ -679,6 +681,98 @@ func samePriv(k interface{}, want *sm2.PrivateKey) bool {
 	return false
 }
 
+// p12ChainUnit: bundles that carry the issuing certificates as well. Encode accepts a list of CA
+// certificates; DecodeAll must give back the key and every certificate that was put in (Decode, which
+// is documented for exactly one certificate, may refuse such a bundle but must not return something
+// else), and a wrong password is refused.
+// stdCAs: three CA certificates of the kinds the Encode signature admits (crypto/x509 certificates:
+// RSA and NIST curves).
+func stdCAs() []*stdx509.Certificate {
+	var out []*stdx509.Certificate
+	for i := 0; i < 3; i++ {
+		var pub interface{}
+		var priv interface{}
+		if i == 1 {
+			k, _ := rsa.GenerateKey(rand.Reader, 2048)
+			pub, priv = &k.PublicKey, k
+		} else {
+			k, _ := ecdsa.GenerateKey(elliptic.P256(), rand.Reader)
+			pub, priv = &k.PublicKey, k
+		}
+		t := &stdx509.Certificate{SerialNumber: big.NewInt(int64(900 + i)), Subject: pkix.Name{CommonName: fmt.Sprintf("bundle CA %d", i)}, NotBefore: time.Date(2020, 1, 1, 0, 0, 0, 0, time.UTC), NotAfter: time.Date(2040, 1, 1, 0, 0, 0, 0, time.UTC), IsCA: true, BasicConstraintsValid: true, KeyUsage: stdx509.KeyUsageCertSign}
+		der, err := stdx509.CreateCertificate(rand.Reader, t, t, pub, priv)
+		if err != nil {
+			panic(err)
+		}
+		c, err := stdx509.ParseCertificate(der)
+		if err != nil {
+			panic(err)
+		}
+		out = append(out, c)
+	}
+	return out
+}
+
+func p12ChainUnit() harness.Unit {
+	return harness.Unit{Name: "pkcs12/with-ca-certificates", Run: func(c *harness.Ctx) {
+		ids := identities()
+		for ki := 0; ki < 2; ki++ {
+			id := ids[ki]
+			for nca := 0; nca <= 3; nca++ {
+				cas := stdCAs()[:nca]
+				for _, pw := range []string{"", "pw-chain"} {
+					tag := fmt.Sprintf("key=%s, %d CA certificates, password=%q", id.name, nca, pw)
+					c.Add("evaluations", 1)
+					c.DistinctS("nontrivial", tag)
+					var pfx []byte
+					var err error
+					if c.Guard("p12-panic:encode-chain", "pkcs12.Encode "+tag, nil, func() { pfx, err = pkcs12.Encode(id.sm2, id.cert, cas, pw) }) {
+						continue
+					}
+					if err != nil {
+						c.Violate("p12-chain-encode", fmt.Sprintf("[%s] Encode failed: %v", tag, err), nil, nil)
+						continue
+					}
+					var k interface{}
+					var certs []*gx509.Certificate
+					if c.Guard("p12-panic:decode-chain", "pkcs12.DecodeAll "+tag, nil, func() { k, certs, err = pkcs12.DecodeAll(pfx, pw) }) {
+						continue
+					}
+					if err != nil {
+						c.Violate("p12-chain-roundtrip", fmt.Sprintf("[%s] DecodeAll with the right password fails: %v", tag, err), nil, nil)
+						continue
+					}
+					want := [][]byte{id.cert.Raw}
+					for _, ca := range cas {
+						want = append(want, ca.Raw)
+					}
+					okc := len(certs) == len(want)
+					for _, w := range want {
+						found := false
+						for _, g := range certs {
+							found = found || bytes.Equal(g.Raw, w)
+						}
+						okc = okc && found
+					}
+					if !samePriv(k, id.sm2) || !okc {
+						c.Violate("p12-chain-content", fmt.Sprintf("[%s] DecodeAll returns %d certificates (want %d, all that were put in) and the right key=%v", tag, len(certs), len(want), samePriv(k, id.sm2)), nil, nil)
+					}
+					if _, _, err := pkcs12.DecodeAll(pfx, pw+"x"); err == nil {
+						c.Violate("p12-wrong-password-accepted", fmt.Sprintf("[%s] bundle decoded with a wrong password", tag), nil, nil)
+					}
+					c.Guard("p12-panic:decode-single", "pkcs12.Decode "+tag, nil, func() {
+						k1, c1, err := pkcs12.Decode(pfx, pw)
+						if err == nil && (!samePriv(k1, id.sm2) || c1 == nil || !bytes.Equal(c1.Raw, id.cert.Raw)) {
+							c.Violate("p12-chain-decode-single", fmt.Sprintf("[%s] Decode returns no error but not the key and leaf that were put in", tag), nil, nil)
+						}
+					})
+				}
+			}
+		}
+		c.Sample("2 identities x 0..3 CA certificates x 2 passwords: Encode, DecodeAll (all certificates back), wrong password, Decode")
+	}}
+}
+
 func p12Unit(pi int) harness.Unit {
 	return harness.Unit{Name: fmt.Sprintf("pkcs12/password%d", pi), Run: func(c *harness.Ctx) {
 		ids := identities()
@@ -819,7 +913,7 @@ func blockTypes(bs []*pem.Block) []string {
 var Prop = &harness.Prop{
 	ID:          "C17",
 	Level:       "exploration",
-	Rule:        "enveloped data: every content length 0..300 and around 65280..65536 with one SM2 and one RSA recipient for both content algorithms (DER length-encoding boundaries inside the container), attached signed data of the same lengths; full product content lengths {0,1,7,8,9,15,16,17,1000,65536} x content algorithm {DES-CBC, AES-128-GCM} x {SM2 C1C3C2, SM2 C1C2C3, RSA} x 1..3 recipients: each recipient recovers the content; another key, a non-recipient certificate, the other ordering and a key of the wrong type must give an error (not a panic). signed data: SM2 objects built by the harness in the GM/T 0010 layout over lengths x attributes x attached/detached x both OID pairs verify, and each of 8 tamperings (content, signature, signer certificate, each signed attribute) is rejected; the package's own RSA creation path must verify; objects with 2 and 3 signers (alternating identities and digest algorithms) verify, and each of 3 faults at each signer position is rejected. PKCS#12: 2 SM2 identities x 12 passwords (empty, ASCII, spaces, non-ASCII, 31/32/33/63/64/65/200 characters, 36 non-ASCII characters): round trip through DecodeAll/ToPEM, every other password refused (also one character changed at the end / in the middle / after the 32nd, cut to 31/32/33 characters); fault enumeration over one bundle per password: every byte substitution and every truncation gives an error or the same content. Distinct/non-trivial = distinct case labels / mutated bundles.",
+	Rule:        "enveloped data: every content length 0..300 and around 65280..65536 with one SM2 and one RSA recipient for both content algorithms (DER length-encoding boundaries inside the container), attached signed data of the same lengths; full product content lengths {0,1,7,8,9,15,16,17,1000,65536} x content algorithm {DES-CBC, AES-128-GCM} x {SM2 C1C3C2, SM2 C1C2C3, RSA} x 1..3 recipients: each recipient recovers the content; another key, a non-recipient certificate, the other ordering and a key of the wrong type must give an error (not a panic). signed data: SM2 objects built by the harness in the GM/T 0010 layout over lengths x attributes x attached/detached x both OID pairs verify, and each of 8 tamperings (content, signature, signer certificate, each signed attribute) is rejected; the package's own RSA creation path must verify; objects with 2 and 3 signers (alternating identities and digest algorithms) verify, and each of 3 faults at each signer position is rejected. PKCS#12: 2 SM2 identities x 12 passwords (empty, ASCII, spaces, non-ASCII, 31/32/33/63/64/65/200 characters, 36 non-ASCII characters): round trip through DecodeAll/ToPEM, every other password refused (also one character changed at the end / in the middle / after the 32nd, cut to 31/32/33 characters); bundles with 0..3 CA certificates give back every certificate through DecodeAll; fault enumeration over one bundle per password: every byte substitution and every truncation gives an error or the same content. Distinct/non-trivial = distinct case labels / mutated bundles.",
 	Assumptions: []string{"the PKCS#7 content-encryption selector is a process-wide setting changed only between units (single-threaded)", "RSA recipient certificates come from Go's crypto/x509"},
 	Bounds: func(tier string) string {
 		if tier == "thorough" {
@@ -828,7 +922,7 @@ var Prop = &harness.Prop{
 		return "complete; PKCS#12 byte faults: b^1 at every position, the other three substitutions at every 4th position, every truncation"
 	},
 	Units: func(tier string) []harness.Unit {
-		u := []harness.Unit{envelopeUnit(gx509.EncryptionAlgorithmDESCBC), envelopeUnit(gx509.EncryptionAlgorithmAES128GCM), signedUnit(), multiSignerUnit()}
+		u := []harness.Unit{envelopeUnit(gx509.EncryptionAlgorithmDESCBC), envelopeUnit(gx509.EncryptionAlgorithmAES128GCM), signedUnit(), multiSignerUnit(), p12ChainUnit()}
 		big := []int{65200, 65279, 65280, 65281, 65400, 65527, 65535, 65536, 65537}
 		for _, alg := range []int{gx509.EncryptionAlgorithmDESCBC, gx509.EncryptionAlgorithmAES128GCM} {
 			for lo := 0; lo <= 300; lo += 76 {
